@@ -218,12 +218,18 @@ fn run<X: El, N: ArrayLength>(sc: &str, f: usize, b: usize, skip: usize) {
         "fold.ref" => { let a = arr::<X, N>(); let _ = (&a).fold(0usize, |acc, x| { tick(); acc + x.idv() }); drop(a); }
         "clone" => { let a = arr::<X, N>(); let r = catch_unwind(AssertUnwindSafe(|| a.clone())); drop(a); match r { Ok(c) => drop(c), Err(e) => std::panic::resume_unwind(e) } }
         "try_from_iter" => { for cnt in [n, n + 1, n.saturating_sub(1)] { let r = GenericArray::<X, N>::try_from_iter(Src::<X> { left: cnt, next_id: 0, _x: std::marker::PhantomData }); drop(r); } }
+        // one source length per run: with a panicking destructor the first conversion of the combined arm above ends the run
+        "try_from_iter.long" => { let r = GenericArray::<X, N>::try_from_iter(Src::<X> { left: n + 1, next_id: 0, _x: std::marker::PhantomData }); drop(r); }
+        "try_from_iter.short" => { let r = GenericArray::<X, N>::try_from_iter(Src::<X> { left: n.saturating_sub(1), next_id: 0, _x: std::marker::PhantomData }); drop(r); }
+        "try_from_iter.exact" => { let r = GenericArray::<X, N>::try_from_iter(Src::<X> { left: n, next_id: 0, _x: std::marker::PhantomData }); drop(r); }
         "iter.clone_from" => { let mut it = position::<X, N>(f, b); let src = GenericArray::<X, N>::generate(|i| X::new(i + 16)).into_iter(); let r = catch_unwind(AssertUnwindSafe(|| it.clone_from(&src))); drop(it); drop(src); if let Err(e) = r { std::panic::resume_unwind(e) } }
         "box.map" => { let b = Box::new(arr::<X, N>()); let m: Box<GenericArray<usize, N>> = b.map(|x| { tick(); x.idv() }); drop(m); }
         "box.map.plain" => { let b: Box<GenericArray<usize, N>> = Box::new(GenericArray::generate(|i| i)); let m: Box<GenericArray<usize, N>> = b.map(|x| { tick(); x + 1 }); drop(m); }
         "box.fold" => { let b = Box::new(arr::<X, N>()); let _ = b.fold(0usize, |acc, x| { tick(); acc + x.idv() }); }
         "box.fold.plain" => { let b: Box<GenericArray<usize, N>> = Box::new(GenericArray::generate(|i| i)); let _ = b.fold(0usize, |acc, x| { tick(); acc + x }); }
         "clone_from" => { let mut a = arr::<X, N>(); let b2: GenericArray<X, N> = GenericArray::generate(|i| X::new(i + 16)); let r = catch_unwind(AssertUnwindSafe(|| a.clone_from(&b2))); drop(a); drop(b2); if let Err(e) = r { std::panic::resume_unwind(e) } }
+        "try_boxed_from_iter.long" => { let r = GenericArray::<X, N>::try_boxed_from_iter(Src::<X> { left: n + 1, next_id: 0, _x: std::marker::PhantomData }); drop(r); }
+        "try_boxed_from_iter.short" => { let r = GenericArray::<X, N>::try_boxed_from_iter(Src::<X> { left: n.saturating_sub(1), next_id: 0, _x: std::marker::PhantomData }); drop(r); }
         "try_boxed_from_iter" => { for cnt in [n, n + 1, n.saturating_sub(1)] { let r = GenericArray::<X, N>::try_boxed_from_iter(Src::<X> { left: cnt, next_id: 0, _x: std::marker::PhantomData }); drop(r); } }
         "remove" => { if n > 0 { let a = arr::<X, N>(); let r = catch_unwind(AssertUnwindSafe(|| dispatch_remove::<X, N>(a, n + skip))); if let Err(e) = r { std::panic::resume_unwind(e) } } }
         _ => { eprintln!("unknown scenario {sc}"); std::process::exit(3); }
@@ -847,6 +853,8 @@ fn main() {
         "fold" => vec!["fold".into(), "fold.ref".into(), "fold.acc".into()],
         "iter.fold" => vec!["iter.fold".into(), "iter.fold.acc".into()],
         "box.map" => vec!["box.map".into(), "box.map.plain".into()],
+        "try_boxed_from_iter" => vec!["try_boxed_from_iter".into(), "try_boxed_from_iter.long".into(), "try_boxed_from_iter.short".into()],
+        "try_from_iter" => vec!["try_from_iter".into(), "try_from_iter.long".into(), "try_from_iter.short".into(), "try_from_iter.exact".into()],
         "box.fold" => vec!["box.fold".into(), "box.fold.plain".into()],
         s => vec![s.to_string()],
     };
